@@ -1080,6 +1080,8 @@ def main(chk, replay=None):
         "function_dependencies is a Python set: the model lists it in the set's iteration order, equality is as sets",
     ]
     proof_ok = chk.build_and_audit()
+    import gen_tables
+    gen_tables.attach(chk, "C11Tables")
     quick = chk.tier == "quick"
     rng = chk.rng
     R = Runner(chk, W, use_model=proof_ok)
